@@ -310,7 +310,7 @@ void apply(Map &mp, CaseCtx &cx, int op, uint8_t a, uint8_t b, int K, size_t max
         mp.model.clear();
         size_t sz;
         LIB(sz = cstl_map_size(&mp.m));
-        CHECK(sz == 0, "C15.map.empty", "%s size %zu after clear", mp.tag, sz);
+        CHECK(sz == 0, g_prop == "C15" ? "C15.map.empty" : "C08.size", "%s size %zu after clear", mp.tag, sz);
         CHECK(lib_live_count() == 0 || g_prop == "C15", "C08.clear.released", "%s clear left %zu library allocations", mp.tag, lib_live_count());
         if (n >= 3) cx.clear3 = true;
         break;
